@@ -103,6 +103,7 @@ func runC03(p *chk.Prog, r *chk.Report) {
 	c06Gate(p, r)
 	c06Order(p, r)
 	c06Handler(p, r)
+	c06ReadoptFirst(p, r)
 }
 
 func c03Converge(p *chk.Prog, r *chk.Report) {
@@ -219,6 +220,17 @@ func c03Converge(p *chk.Prog, r *chk.Report) {
 			if len(g.Find(func(n ast.Node) bool {
 				return chk.InBody(rs, n) && f.IsAssignPat("V", "append(V, v1.LoadBalancerIngress{IP: X.String()})", chk.H("V", f.IsObj(v)), chk.H("X", rangeVal(f, rs)))(n)
 			})) == 1 && !loopCanSkip(g, rs, func(n ast.Node) bool { _, ok := n.(*ast.AssignStmt); return ok }) {
+				okIng = true
+			}
+			// or a list made with one slot per held address and filled slot by slot
+			fill := f.IsAssignPat("V[I]", "v1.LoadBalancerIngress{IP: X.String()}", chk.H("V", f.IsObj(v)), chk.H("I", rangeKey(f, rs)), chk.H("X", rangeVal(f, rs)))
+			sized := false
+			for _, d := range assignsTo(f, v) {
+				if as, isAs := d.(*ast.AssignStmt); isAs && len(as.Rhs) == 1 && f.MatchWith("make(T, len(L))", as.Rhs[0], chk.H("L", f.IsObj(lbIPs))) != nil {
+					sized = true
+				}
+			}
+			if sized && !loopSkipsWithout(g, rs, fill, chk.NoGuard) && !loopHasBreak(g, rs) {
 				okIng = true
 			}
 		}
